@@ -19,6 +19,19 @@ FMAXS == 78125                       \* MAX_FREQUENCY in frequency sub-ticks of 
 ClosedKinds == {"TimeStamp", "TimeInterval", "BoundingBox"}
 RoundKinds  == {"LineString", "MultiLineString"}      \* buffered with round caps (inscribed 32-gons)
 Negative(b) == b[1] < 0 \/ b[2] < 0
+(***************************************************************************)
+(* Buffers that are not lattice values: tiny magnitudes around zero.  A    *)
+(* run may name, per axis, one of these real numbers instead of its        *)
+(* lattice buffer (which is then 0): e = <<name on the time axis, name on  *)
+(* the frequency axis>>, "" = none.  "-1e-9", "-1e-10", "-1e-12" and       *)
+(* "-5e-324" (the smallest subnormal) ARE negative -- "a negative buffer   *)
+(* is rejected" has no allowance for small magnitudes; "-0.0" is zero, not *)
+(* negative, and must behave exactly like 0.                               *)
+(***************************************************************************)
+NegTiny == {"-1e-9", "-1e-10", "-1e-12", "-5e-324"}
+TinyNames == NegTiny \cup {"-0.0"}
+NoTiny == <<"", "">>
+NegativeRun(b, e) == Negative(b) \/ e[1] \in NegTiny \/ e[2] \in NegTiny
 
 (***************************************************************************)
 (* The numeric TYPE of the buffer arguments.  The statement quantifies     *)
@@ -176,7 +189,7 @@ Grows(x, y) == (x = 0 /\ y = 0) \/ (y > 0 /\ y - x >= CeilDiv(x, CapN))      \* 
 MonoComparable(b1, b2) == b1 = b2 \/ (Grows(b1[1], b2[1]) /\ Grows(b1[2], b2[2]))
 
 (***************************************************************************)
-(* Acceptance.  An observation is o.in = [g, b1, b2, t1, t2, probes, u] and *)
+(* Acceptance.  An observation is o.in = [g, b1, b2, t1, t2, e1, e2, probes, u] and *)
 (* o.out = [r1, r2], one run per buffer pair:                              *)
 (*   [raised  : "" or the exception class,                                 *)
 (*    type    : type of the returned geometry,                             *)
@@ -200,45 +213,48 @@ GrowTo(ob, t, b) == /\ LLeS(ob[1], t[1], SlackFor(Min(b[1], 1000000))) /\ LLeS(o
                     /\ LGeS(ob[3], t[3], SlackFor(Min(b[1], 1000000))) /\ LGeS(ob[4], t[4], SlackFor(Min(b[2], 1000000)))
 Exp(g, b) == BufClosed(g, b).coordinates
 
-RunHolds(cl, g, b, probes, r) ==
-    CASE cl = "NegativeRejected" -> Negative(b) <=> (r.raised = "ValueError")
-      [] cl = "ValidGeometry" -> (~Negative(b)) =>
+RunHolds(cl, g, b, e, probes, r) ==
+    LET neg == NegativeRun(b, e) IN
+    CASE cl = "NegativeRejected" -> neg <=> (r.raised = "ValueError")
+      [] cl = "ValidGeometry" -> (~neg) =>
             /\ Good(r)
             /\ IF g.type \in ClosedKinds THEN r.type = BufClosed(g, b).type
                ELSE r.type \in {"Polygon", "MultiPolygon"} /\ r.closed
             /\ HasBounds(r) /\ Len(r.inside) = Len(probes)
-      [] cl = "Domain" -> (~Negative(b) /\ HasBounds(r)) =>
+      [] cl = "Domain" -> (~neg /\ HasBounds(r)) =>
             LET ob == ObsBounds(r) IN
             /\ \A i \in 1..4 : LNonNeg(ob[i])                        \* all times >= 0, all frequencies >= 0
             /\ LLeInt(ob[2], FMAXS) /\ LLeInt(ob[4], FMAXS)         \* all frequencies <= MAX_FREQUENCY
             /\ LLe(ob[1], ob[3]) /\ LLe(ob[2], ob[4])
-      [] cl = "Contains" -> (~Negative(b) /\ Good(r) /\ Len(r.inside) = Len(probes)) =>
+      [] cl = "Contains" -> (~neg /\ Good(r) /\ Len(r.inside) = Len(probes)) =>
             \A i \in DOMAIN probes : OnOrIn(g, probes[i]) => r.inside[i]
-      [] cl = "ExactWidening" -> (~Negative(b) /\ Good(r) /\ g.type \in ClosedKinds) =>
+      [] cl = "ExactWidening" -> (~neg /\ Good(r) /\ g.type \in ClosedKinds) =>
             /\ r.type = BufClosed(g, b).type
             /\ Len(r.coords) = Len(Exp(g, b))
             /\ \A i \in 1..Len(r.coords) : LEq(r.coords[i], LInt(Exp(g, b)[i]))
-      [] cl = "BoundsGrowExact" -> (~Negative(b) /\ HasBounds(r) /\ g.type \notin RoundKinds /\ ~FlatCase(g, b)) =>
+      [] cl = "BoundsGrowExact" -> (~neg /\ HasBounds(r) /\ g.type \notin RoundKinds /\ ~FlatCase(g, b)) =>
             LET t == Target(g, b) IN GrowTo(ObsBounds(r), [i \in 1..4 |-> LInt(t[i])], b)
       \* line strings: a shortfall beyond the inscribed-polygon bound is a violation; any shortfall at all is finding F16
-      [] cl = "BoundsGrowRound" -> (~Negative(b) /\ HasBounds(r) /\ g.type \in RoundKinds /\ ~FlatCase(g, b) /\ ~Folded(g)) =>
+      [] cl = "BoundsGrowRound" -> (~neg /\ HasBounds(r) /\ g.type \in RoundKinds /\ ~FlatCase(g, b) /\ ~Folded(g)) =>
             LET t == TargetRoundScaled(g, b) IN GrowTo(ObsBounds(r), [i \in 1..4 |-> LRatDown(t[i], CapD)], b)
-      [] cl = "BoundsGrowRoundStrict" -> (~Negative(b) /\ HasBounds(r) /\ g.type \in RoundKinds /\ ~FlatCase(g, b)) =>
+      [] cl = "BoundsGrowRoundStrict" -> (~neg /\ HasBounds(r) /\ g.type \in RoundKinds /\ ~FlatCase(g, b)) =>
             LET t == Target(g, b) IN GrowTo(ObsBounds(r), [i \in 1..4 |-> LInt(t[i])], b)
       \* the same tolerant target for line strings that fold back (open finding of its own)
-      [] cl = "BoundsGrowFolded" -> (~Negative(b) /\ HasBounds(r) /\ g.type \in RoundKinds /\ ~FlatCase(g, b) /\ Folded(g)) =>
+      [] cl = "BoundsGrowFolded" -> (~neg /\ HasBounds(r) /\ g.type \in RoundKinds /\ ~FlatCase(g, b) /\ Folded(g)) =>
             LET t == TargetRoundScaled(g, b) IN GrowTo(ObsBounds(r), [i \in 1..4 |-> LRatDown(t[i], CapD)], b)
       \* zero frequency buffer at frequencies >= 2.25 MHz (any shapely kind): same split, bound 1 - cos(pi/8)
-      [] cl = "BoundsGrowFlat" -> (~Negative(b) /\ HasBounds(r) /\ FlatCase(g, b)) =>
+      [] cl = "BoundsGrowFlat" -> (~neg /\ HasBounds(r) /\ FlatCase(g, b)) =>
             LET t == TargetScaled(g, b, FlatN, FlatD) IN GrowTo(ObsBounds(r), [i \in 1..4 |-> LRatDown(t[i], FlatD)], b)
-      [] cl = "BoundsGrowFlatStrict" -> (~Negative(b) /\ HasBounds(r) /\ FlatCase(g, b)) =>
+      [] cl = "BoundsGrowFlatStrict" -> (~neg /\ HasBounds(r) /\ FlatCase(g, b)) =>
             LET t == Target(g, b) IN GrowTo(ObsBounds(r), [i \in 1..4 |-> LInt(t[i])], b)
 
 Holds(cl, o) ==
-    LET c == o.in IN
+    LET c == o.in
+        e1 == IF "e1" \in DOMAIN c THEN c.e1 ELSE NoTiny
+        e2 == IF "e2" \in DOMAIN c THEN c.e2 ELSE NoTiny IN
     IF cl = "Monotone"
-    THEN (~Negative(c.b1) /\ ~Negative(c.b2) /\ MonoComparable(c.b1, c.b2) /\ Good(o.out.r1) /\ Good(o.out.r2)
+    THEN (~NegativeRun(c.b1, e1) /\ ~NegativeRun(c.b2, e2) /\ MonoComparable(c.b1, c.b2) /\ Good(o.out.r1) /\ Good(o.out.r2)
           /\ Len(o.out.r1.inside) = Len(c.probes) /\ Len(o.out.r2.inside) = Len(c.probes)) =>
              \A i \in DOMAIN c.probes : o.out.r1.inside[i] => o.out.r2.inside[i]
-    ELSE RunHolds(cl, c.g, c.b1, c.probes, o.out.r1) /\ RunHolds(cl, c.g, c.b2, c.probes, o.out.r2)
+    ELSE RunHolds(cl, c.g, c.b1, e1, c.probes, o.out.r1) /\ RunHolds(cl, c.g, c.b2, e2, c.probes, o.out.r2)
 =============================================================================
